@@ -9,6 +9,8 @@ CONSTANTS
                        \* "equal2": 00000.chunk and 00000.secondary have the same content
     ServedU,           \* "honest" | "atomic" | "increasing"
     DirU,              \* "honest" | "atomic" | "all" | "fromServed"
+    AllDirOptions,     \* DirU = "all": per file a subset of {-1 absent, 0 its own content, 1 another
+                       \* certified content, 2 a foreign content}
     ExcuseMisplaced,   \* KNOWN_FINDINGS C10-content-not-bound-to-name
     ExcuseDecoy        \* KNOWN_FINDINGS C10-nested-immutable-dir
 
@@ -66,7 +68,7 @@ Other(n) == LET i == CHOOSE i \in DOMAIN CertSeq : CertSeq[i] = n
             IN  Cert[CertSeq[(i % Len(CertSeq)) + 1]]
 AllDir ==
     {[imm |-> Restrict(f, {n \in DOMAIN f : f[n] # Absent}), decoy |-> "none"] :
-        f \in {g \in [Trios(0, N) -> {Absent, 0, 1, 2}] : TRUE}}
+        f \in [Trios(0, N) -> AllDirOptions]}
 ResolveAll(d) ==
     [d EXCEPT !.imm = [n \in DOMAIN d.imm |->
                           CASE d.imm[n] = 0 -> Cert[n] [] d.imm[n] = 1 -> Other(n) [] OTHER -> Foreign]]
